@@ -50,7 +50,9 @@ type Result struct {
 func (r *Result) Add(rule, construct string, st Status, pos, detail string, trace ...string) {
 	r.Obligations = append(r.Obligations, Obligation{Rule: rule, Construct: construct, Status: st, Pos: pos, Detail: detail, Trace: trace})
 }
-func (r *Result) Hold(rule, construct, pos, detail string) { r.Add(rule, construct, Holds, pos, detail) }
+func (r *Result) Hold(rule, construct, pos, detail string) {
+	r.Add(rule, construct, Holds, pos, detail)
+}
 func (r *Result) Viol(rule, construct, pos, detail string, trace ...string) {
 	r.Add(rule, construct, Violated, pos, detail, trace...)
 }
